@@ -1,15 +1,15 @@
 // Package c10: evaluation is deterministic (DESIGN §C10).
 //
-//	1. history independence   transcript of every target in a fresh runtime after EVERY
-//	                          sequence of <=2 preceding activities in other runtimes of the
-//	                          same process == its transcript in a fresh process with no history
-//	2. schedule independence  targets run under the controlled scheduler (all schedules up
-//	                          to the preemption bound) == their solo transcripts
-//	3. address independence   no pointer-shaped token in any transcript; transcripts equal
-//	                          across two fresh processes with different heap layouts
-//	4. map-order independence R repeated in-process runs (this part samples the Go runtime's
-//	                          per-iteration random start; it is labelled statistical and
-//	                          carries a measured control)
+//  1. history independence   transcript of every target in a fresh runtime after EVERY
+//     sequence of <=2 preceding activities in other runtimes of the
+//     same process == its transcript in a fresh process with no history
+//  2. schedule independence  targets run under the controlled scheduler (all schedules up
+//     to the preemption bound) == their solo transcripts
+//  3. address independence   no pointer-shaped token in any transcript; transcripts equal
+//     across two fresh processes with different heap layouts
+//  4. map-order independence R repeated in-process runs (this part samples the Go runtime's
+//     per-iteration random start; it is labelled statistical and
+//     carries a measured control)
 //
 // transcript = (printed value, stderr, error condition + message + rendered
 // stack trace, step count).
@@ -183,6 +183,40 @@ func handTargets() []target {
 	add("pkg/exports-help-package", shapes+"(help:help-package 'shapes)")
 	add("pkg/use-package-first-unbound", shapes+"(handler-bind ([condition (lambda (c &rest d) (list c d))]) (use-package 'shapes))")
 	add("pkg/exports-after-reload", shapes+shapes+"(list (handler-bind ([condition (lambda (c &rest d) (list c d))]) (use-package 'shapes)) (help:help-package-symbols 'shapes))")
+	// one function value bound under several names of its package, some of them then rebound: the name a call frame,
+	// a stack trace and the "name: message" prefix show is picked among the names that are left
+	aliasNames := []string{"on-create", "on-update", "on-delete", "zeta-hook", "alpha-hook", "mu-hook"}
+	for _, k := range []int{1, 2, 3, 5} {
+		var sb strings.Builder
+		sb.WriteString("(defun handler (a) (debug-stack) (car a)) ")
+		for _, nm := range aliasNames[:k] {
+			fmt.Fprintf(&sb, "(set '%s handler) ", nm)
+		}
+		base := sb.String()
+		rebinds := map[string]string{
+			"none":         "",
+			"last-set":     fmt.Sprintf("(set '%s 1) ", aliasNames[k-1]),
+			"last-defun":   fmt.Sprintf("(defun %s () 1) ", aliasNames[k-1]),
+			"first-set":    fmt.Sprintf("(set '%s 1) ", aliasNames[0]),
+			"home-set":     "(set 'handler 1) ",
+			"last+home":    fmt.Sprintf("(set '%s 1) (set 'handler 2) ", aliasNames[k-1]),
+			"last-twice":   fmt.Sprintf("(set '%s 1) (set '%s 2) ", aliasNames[k-1], aliasNames[(k-1)/2]),
+			"last-set!":    fmt.Sprintf("(set! %s 1) ", aliasNames[k-1]),
+			"last-realias": fmt.Sprintf("(set '%s car) ", aliasNames[k-1]),
+		}
+		for _, rb := range []string{"none", "last-set", "last-defun", "first-set", "home-set", "last+home", "last-twice", "last-set!", "last-realias"} {
+			callee := aliasNames[0]
+			if rb == "first-set" && k > 1 {
+				callee = aliasNames[1]
+			} else if rb == "first-set" || (k == 1 && rb != "none" && rb != "home-set") {
+				callee = "handler"
+			}
+			id := fmt.Sprintf("alias%d/%s", k, rb)
+			add(id+"/arity", base+rebinds[rb]+fmt.Sprintf("(%s)", callee))
+			add(id+"/inner-error", base+rebinds[rb]+fmt.Sprintf("(%s 5)", callee))
+			add(id+"/handled", base+rebinds[rb]+fmt.Sprintf("(handler-bind ([condition (lambda (c &rest d) (list c d))]) (%s 5))", callee))
+		}
+	}
 	add("schema/validator-print", "(s:make-validator \"v\" s:int (s:gt 1))")
 	add("schema/validate-err", "(s:validate (s:make-validator \"v\" s:int (s:gt 1)) 0)")
 	add("schema/validate-arity", "(funcall (s:make-validator \"v\" s:int (s:gt 1)))")
